@@ -992,6 +992,20 @@ func (x *Exec) loopSpec() *LoopSpec {
 	return x.contract.Loops[*x.loopOrd]
 }
 
+// takeSnapshots binds the ghost snapshots of a loop to the values at loop entry.
+func (x *Exec) takeSnapshots(ls *LoopSpec, st *State, pos token.Pos) {
+	if ls == nil {
+		return
+	}
+	for _, sn := range ls.Snaps {
+		ex, err := parseSpec(sn[1])
+		if err != nil {
+			panic(specFailure{err.Error()})
+		}
+		st.ghost[sn[0]] = x.specEnv(st, pos).eval(ex)
+	}
+}
+
 // checkInvs emits one obligation per invariant clause (split at conjunctions).
 func (x *Exec) checkInvs(ls *LoopSpec, st *State, kind string, ord int, pos token.Pos) {
 	if ls == nil || st == nil {
@@ -1084,6 +1098,7 @@ func (x *Exec) execFor(n *ast.ForStmt, st *State, label string) *State {
 	if ls == nil && x.contract != nil && !x.contract.Thin {
 		x.c.notes = append(x.c.notes, fmt.Sprintf("loop %d at %s has no invariant (treated as 'true')", ord, x.c.posOf(n)))
 	}
+	x.takeSnapshots(ls, st, n.Body.Lbrace)
 	x.checkInvs(ls, st, "inv-entry", ord, n.Body.Lbrace)
 	ms := x.modifiedIn(n.Body, n.Post, n.Cond)
 	head := st.clone()
@@ -1232,6 +1247,7 @@ func (x *Exec) execRange(n *ast.RangeStmt, st *State, label string) *State {
 	if valObj != nil {
 		st.vars[valObj] = c.zeroVal(valObj.Type(), nil)
 	}
+	x.takeSnapshots(ls, st, n.Body.Lbrace)
 	x.checkInvsRange(ls, st, "inv-entry", ord, n.Body.Lbrace, idxObj, valObj, elem, count)
 	ms := x.modifiedIn(n.Body)
 	ms.vars[idxObj] = true
